@@ -462,4 +462,142 @@ package jlib
 //@   assigns heap
 //@   decreases[msort] len(values)
 
+// --- C14 (object functions) and C09 ------------------------------------------------------------------------------------------
+// $each/$sift/$keys/$merge/$spread on maps, structs and arrays of them. "obj" is what the signature validation hands
+// over: valid or not, interfaceable when valid.
+//@ func toInterfaceMap
+//@   props C14 C09
+//@   requires valid(v)
+//@   assigns nothing
+//@ func Each
+//@   props C14 C09
+//@   requires fn != nil && ifaceable(obj)
+//@ func eachMap
+//@   props C14 C09
+//@   requires fn != nil && kind(v) == 21 && canif(v)
+//@ func eachStruct
+//@   props C14 C09
+//@   requires fn != nil && kind(v) == 25 && canif(v)
+//@ func Sift
+//@   props C14 C09
+//@   requires fn != nil && ifaceable(obj)
+//@ func siftMap
+//@   props C14 C09
+//@   requires fn != nil && kind(v) == 21 && canif(v)
+//@ func siftStruct
+//@   props C14 C09
+//@   requires fn != nil && kind(v) == 25 && canif(v)
+//@ func Keys
+//@   props C14 C09
+//@   requires ifaceable(obj)
+//@ func keys
+//@   props C14 C09
+//@   requires ifaceable(v)
+//@ func keysMap
+//@   props C14 C09
+//@   requires kind(v) == 21 && canif(v)
+//@ func keysMapFast
+//@   props C14 C09
+//@ func keysStruct
+//@   props C14 C09
+//@   requires kind(v) == 25 && canif(v)
+//@ func keysArray
+//@   props C14 C09
+//@   requires arrKind(kind(v)) && canif(v)
+//@   loop 1 invariant size >= 0
+//@ func Merge
+//@   props C14 C09
+//@   requires ifaceable(objs)
+//@ func mergeMap
+//@   props C14 C09
+//@   requires dest != nil && kind(src) == 21 && canif(src)
+//@ func mergeMapFast
+//@   props C14 C09
+//@   requires dest != nil
+//@ func mergeStruct
+//@   props C14 C09
+//@   requires dest != nil && kind(src) == 25 && canif(src)
+//@ func mergeArray
+//@   props C14 C09
+//@   requires dest != nil && arrKind(kind(src)) && canif(src)
+//@ func Spread
+//@   props C14 C09
+//@   requires ifaceable(v)
+
+// --- C09: the remaining built-in functions: total on every argument the signature validation lets through ---------------------
+//@ func Not
+//@   props C09 C03
+//@   ensures [C03:not-is-negated-cast] result == !ufb_truthy(v)
+//@   assigns nothing
+//@ func Exists
+//@   props C09
+//@   ensures result == valid(v)
+//@   assigns nothing
+//@ func Trim
+//@   props C09 C16
+//@ func Match
+//@   props C09 C17
+//@   requires pattern != nil
+//@   ensures r1 != nil ==> len(r0) == 0
+//@   ensures [C17:negative-limit-is-error] limit.Int < 0 ==> r1 != nil
+//@   loop 0 invariant -1 <= $i0 && len(result) == len(matches)
+//@ func FormatNumber
+//@   props C09 C18
+//@   requires ifaceable(options.Value)
+//@ func newDecimalFormat
+//@   props C09 C18
+//@   requires kind(opts) == 21 && canif(opts)
+//@ func updateDecimalFormat
+//@   props C09 C18
+//@   requires format != nil
+//@ func FormatBase
+//@   props C09 C18
+//@ func Base64Encode
+//@   props C09
+//@ func Base64Decode
+//@   props C09
+//@ func DecodeURL
+//@   props C09
+//@ func EncodeURL
+//@   props C09
+//@ func EncodeURLComponent
+//@   props C09
+//@ func Random
+//@   props C09
+//@ func FromMillis
+//@   props C09 C19
+//@ func ToMillis
+//@   props C09 C19
+//@ func parseTime
+//@   props C09 C19
+
 // END OF CONTRACTS (package jlib)
+
+// --- C15: $append, $shuffle ---------------------------------------------------------------------------------------------------
+// $append: an absent side returns the other side as it is; otherwise both sides count as arrays (a non-array is a
+// one-member array) and the result holds the members of the first, then those of the second, in order.
+//@ func Append
+//@   props C15 C09
+//@   requires ifaceable(v1) && ifaceable(v2)
+//@   ensures r1 == nil
+//@   ensures [C15:absent-second-returns-first] (!valid(v2) && valid(v1)) ==> r0 == ifaceof(v1)
+//@   ensures [C15:absent-first-returns-second] (!valid(v1) && valid(v2)) ==> r0 == ifaceof(v2)
+//@   ensures [C15:as-many-members-as-both] (valid(v1) == valid(v2)) ==> (kind(rvof(r0)) == 23 && rvlen(rvof(r0)) == rvlen(ret("arrayify#0", 0)) + rvlen(ret("arrayify#1", 0)))
+//@   atcall[C15:first-then-second] Append$1#0 requires callee_vs == ret("arrayify#0", 0) && callee_length == rvlen(ret("arrayify#0", 0))
+//@   atcall[C15:first-then-second] Append$1#1 requires callee_vs == ret("arrayify#1", 0) && callee_length == rvlen(ret("arrayify#1", 0))
+//@   atcall[C15:arrays-of-both-sides] arrayify#0 requires callee_v == v1
+//@   atcall[C15:arrays-of-both-sides] arrayify#1 requires callee_v == v2
+//@ func Append$1
+//@   props C15 C09
+//@   requires arrKind(kind(vs)) && canif(vs)
+//@   requires 0 <= length && length <= rvlen(vs)
+//@   requires kind(results) == 23 && canif(results)
+//@   ensures [C15:members-in-order] kind(results) == 23 && canif(results) && rvlen(results) == old(rvlen(results)) + length
+//@   loop 0 calls [C15:every-member-appended] reflect.Append#0
+//@   atcall[C15:member-of-the-position] reflect.Append#0 requires callee_arg0 == results && len(callee_arg1) == 1 && callee_arg1[0] == at(vs, i)
+//@   loop 0 invariant 0 <= i && i <= length && kind(results) == 23 && canif(results) && rvlen(results) == old(rvlen(results)) + i
+//@ func Shuffle
+//@   props C15 C09
+//@   requires ifaceable(v)
+//@   ensures [C15:as-many-members] typeis(result, "[]interface {}") && len(dyn(result, "[]interface {}")) == (arrKind(kind(res(v))) ? rvlen(res(v)) : (valid(res(v)) ? 1 : 0))
+//@   loop 0 invariant 0 <= i && len(results) == length
